@@ -397,6 +397,8 @@ def _lift_loop_returns(stmts: List[ast.stmt]) -> Optional[List[ast.stmt]]:
                 return out
             if isinstance(s, (ast.For, ast.While)):
                 had = _contains(s.body, ast.Return) or _contains(s.orelse, ast.Return)
+                if had:
+                    return None  # a return under two loop levels: the helper is left as written (rules that know helpers judge it)
                 s.body = in_loop(s.body)
                 if _contains(s.orelse, ast.Return):
                     return None
@@ -3309,6 +3311,10 @@ def lower_expressions(tree: ast.Module, modname: str) -> List[str]:
                 return None
             ge = st.value.args[0]
             if len(ge.generators) != 1 or ge.generators[0].is_async:
+                return None
+            # the default is evaluated after the generator's iterable and before the search: only a value without effects
+            # may be moved in front of the loop
+            if len(st.value.args) == 2 and not (isinstance(st.value.args[1], ast.Constant) or _pure(st.value.args[1])):
                 return None
             gen = ge.generators[0]
             tvars = [n.id for n in ast.walk(gen.target) if isinstance(n, ast.Name)]
